@@ -31,12 +31,14 @@ func init() {
 					{Name: "bsc-blocks", Spec: c, Depth: 7, ShardDepth: 2},
 					{Name: "tron", Spec: t, Depth: 7, ShardDepth: 2},
 					{Name: "eth-rebond-life-cycle", Spec: &vote.Spec{Prop: "C01", Chain: "eth", Stakes: []int64{10000, 10000, 10000, 10000}, Variants: []string{"A"}, MaxNonce: 4, Rebond: true}, Depth: 11, ShardDepth: 2},
+					{Name: "execute-claim-reentrancy", Custom: reentrancy, Shards: 4},
 				}
 			}
 			q := base("eth")
 			return []registry.Job{
 				{Name: "eth", Spec: q, Depth: 7, ShardDepth: 2},
 				{Name: "eth-rebond-life-cycle", Spec: &vote.Spec{Prop: "C01", Chain: "eth", Stakes: []int64{10000, 10000, 10000, 10000}, Variants: []string{"A"}, MaxNonce: 3, Rebond: true}, Depth: 9, ShardDepth: 2},
+				{Name: "execute-claim-reentrancy", Custom: reentrancy, Shards: 4},
 			}
 		},
 	})
